@@ -23,6 +23,13 @@
 //        sync_wait(let_value_with_stop_source(bulk_join(bulk_transform(bulk_schedule(single_thread_context, n), f, policy))))
 //     -> same answer format
 //   ifor <seq|par> <n>   indexed_for over iota(n) -> n=<#calls> idx=<runs>
+//   policy <receiver: seq|unseq|par|par_unseq|join|default> <P1> [<P2>]
+//        probe_source | bulk_transform(f1, P1) [| bulk_transform(f2, P2)] | receiver
+//        probe_source is a many-sender that HONOURS the policy its receiver advertises (decltype(get_execution_policy(r))):
+//        if the policy permits parallel execution it delivers the two halves of the index space from two threads at
+//        once, otherwise sequentially on the calling thread.  f1 / f2 carry overlap detectors (f1 holds the first index
+//        of each half for a moment so that two delivering threads are certain to overlap).
+//     -> seen=<policy the source saw> threads=<1|2> calls=<#f1 calls> overlap1=<max concurrent f1> overlap2=<max concurrent f2|0> term=<value|done|error>
 //   const             -> chunk=<bulk_cancellation_chunk_size>
 #include <unifex/bulk_join.hpp>
 #include <unifex/bulk_schedule.hpp>
@@ -40,6 +47,9 @@
 #include <unifex/then.hpp>
 
 #include <algorithm>
+#include <atomic>
+#include <chrono>
+#include <thread>
 #include <csignal>
 #include <cstdio>
 #include <cstdlib>
@@ -307,6 +317,153 @@ std::string do_bulkjoin(std::istringstream& in) {
   return rec.line();
 }
 
+
+// ---------------------------------------------------------------- execution-policy probe
+template <typename P>
+const char* policy_name() {
+  if (std::is_same_v<P, unifex::sequenced_policy>) return "seq";
+  if (std::is_same_v<P, unifex::unsequenced_policy>) return "unseq";
+  if (std::is_same_v<P, unifex::parallel_policy>) return "par";
+  if (std::is_same_v<P, unifex::parallel_unsequenced_policy>) return "par_unseq";
+  return "?";
+}
+
+struct ProbeState {
+  const char* seen = "?";
+  std::atomic<int> threads{0};
+  std::atomic<int> in1{0}, max1{0}, in2{0}, max2{0}, calls{0};
+  std::string term = "none";
+  static void enter(std::atomic<int>& in, std::atomic<int>& mx) {
+    int c = ++in;
+    int m = mx.load();
+    while (c > m && !mx.compare_exchange_weak(m, c)) {}
+  }
+};
+
+constexpr std::size_t probe_n = 4;
+
+template <typename Receiver>
+struct probe_op {
+  Receiver r;
+  ProbeState* st;
+  void start() noexcept {
+    using policy_t = unifex::remove_cvref_t<decltype(unifex::get_execution_policy(r))>;
+    st->seen = policy_name<policy_t>();
+    constexpr bool parallel_ok = std::is_same_v<policy_t, unifex::parallel_policy> || std::is_same_v<policy_t, unifex::parallel_unsequenced_policy>;
+    if constexpr (parallel_ok) {
+      st->threads = 2;
+      std::thread a([&] { for (std::size_t i = 0; i < probe_n / 2; ++i) unifex::set_next(r, std::size_t(i)); });
+      std::thread b([&] { for (std::size_t i = probe_n / 2; i < probe_n; ++i) unifex::set_next(r, std::size_t(i)); });
+      a.join();
+      b.join();
+    } else {
+      st->threads = 1;
+      for (std::size_t i = 0; i < probe_n; ++i) unifex::set_next(r, std::size_t(i));
+    }
+    unifex::set_value(std::move(r));
+  }
+};
+
+struct probe_source {
+  ProbeState* st;
+  template <template <typename...> class Variant, template <typename...> class Tuple>
+  using value_types = Variant<Tuple<>>;
+  template <template <typename...> class Variant, template <typename...> class Tuple>
+  using next_types = Variant<Tuple<std::size_t>>;
+  template <template <typename...> class Variant>
+  using error_types = Variant<std::exception_ptr>;
+  static constexpr bool sends_done = false;
+  template <typename Receiver>
+  friend probe_op<unifex::remove_cvref_t<Receiver>> tag_invoke(unifex::tag_t<unifex::connect>, probe_source s, Receiver&& r) {
+    return probe_op<unifex::remove_cvref_t<Receiver>>{(Receiver&&)r, s.st};
+  }
+};
+
+// terminal many-receivers: one advertising a given policy, one without any customisation
+template <typename Policy>
+struct PolRecv {
+  ProbeState* st;
+  template <typename... A>
+  void set_next(A&&...) & noexcept {}
+  void set_value() && noexcept { st->term = "value"; }
+  void set_done() && noexcept { st->term = "done"; }
+  template <typename E>
+  void set_error(E&&) && noexcept { st->term = "error"; }
+  friend Policy tag_invoke(unifex::tag_t<unifex::get_execution_policy>, const PolRecv&) noexcept { return {}; }
+};
+struct PlainRecv {
+  ProbeState* st;
+  template <typename... A>
+  void set_next(A&&...) & noexcept {}
+  void set_value() && noexcept { st->term = "value"; }
+  void set_done() && noexcept { st->term = "done"; }
+  template <typename E>
+  void set_error(E&&) && noexcept { st->term = "error"; }
+};
+
+template <typename F>
+bool with_policy(const std::string& name, F&& f) {
+  if (name == "seq") f(unifex::seq);
+  else if (name == "unseq") f(unifex::unseq);
+  else if (name == "par") f(unifex::par);
+  else if (name == "par_unseq") f(unifex::par_unseq);
+  else return false;
+  return true;
+}
+
+template <typename Sender>
+void run_probe(const std::string& recv, Sender&& snd, ProbeState& st) {
+  auto direct = [&](auto r) {
+    auto op = unifex::connect((Sender&&)snd, std::move(r));
+    unifex::start(op);
+  };
+  if (recv == "join") {
+    auto r = unifex::sync_wait(unifex::bulk_join((Sender&&)snd));
+    st.term = r.has_value() ? "value" : "done";
+  } else if (recv == "default") {
+    direct(PlainRecv{&st});
+  } else {
+    with_policy(recv, [&](auto p) { direct(PolRecv<decltype(p)>{&st}); });
+  }
+}
+
+std::string do_policy(std::istringstream& in) {
+  std::string recv, p1, p2;
+  in >> recv >> p1;
+  if (!in) return "bad-request";
+  in >> p2;
+  ProbeState st;
+  auto f1 = [&st](std::size_t i) noexcept {
+    ProbeState::enter(st.in1, st.max1);
+    ++st.calls;
+    if (st.threads == 2 && (i == 0 || i == probe_n / 2)) {
+      // hold the first index of each half until the other half has arrived (or 20 ms): two threads delivering
+      // concurrently are then certain to overlap
+      for (int k = 0; k < 100 && st.in1.load() < 2; ++k) std::this_thread::sleep_for(std::chrono::microseconds(500));
+    }
+    --st.in1;
+  };
+  auto f2 = [&st]() noexcept {
+    ProbeState::enter(st.in2, st.max2);
+    if (st.threads == 2 && st.max2.load() < 2)
+      for (int k = 0; k < 40 && st.in2.load() < 2; ++k) std::this_thread::sleep_for(std::chrono::microseconds(500));
+    --st.in2;
+  };
+  bool ok = with_policy(p1, [&](auto P1) {
+    if (p2.empty()) {
+      run_probe(recv, unifex::bulk_transform(probe_source{&st}, f1, P1), st);
+    } else {
+      ok = with_policy(p2, [&](auto P2) {
+        run_probe(recv, unifex::bulk_transform(unifex::bulk_transform(probe_source{&st}, f1, P1), f2, P2), st);
+      });
+    }
+  });
+  if (!ok) return "bad-request";
+  std::ostringstream o;
+  o << "seen=" << st.seen << " threads=" << st.threads.load() << " calls=" << st.calls.load() << " overlap1=" << st.max1.load() << " overlap2=" << st.max2.load() << " term=" << st.term;
+  return o.str();
+}
+
 // ---------------------------------------------------------------- indexed_for
 struct int_iterator {
   using value_type = int;
@@ -358,6 +515,7 @@ int main() {
     else if (cmd == "bulk") ans = do_bulk(in);
     else if (cmd == "bulkjoin") ans = do_bulkjoin(in);
     else if (cmd == "ifor") ans = do_ifor(in);
+    else if (cmd == "policy") ans = do_policy(in);
     else if (cmd == "const") ans = "chunk=" + std::to_string(unifex::bulk_cancellation_chunk_size);
     else ans = "bad-request";
     if (!ans.empty()) { printf("%s\n", ans.c_str()); }
